@@ -570,6 +570,33 @@ theorem C07_real_argument (f : Fn ℝ n) (x : CVec ℝ n) (h : f.Smooth x) (d : 
   refine ⟨f.isGradAt_realArg x h d hd, fun i => ?_⟩
   simp [Fn.gradRealArg, scicoGrad, conjVec, Autograd.realPart]
 
+/-! ## the model's plumbing is the table extracted from the source -/
+
+/-- The conjugating wrappers of the model ARE the rows of `Tables.conjSites` (`(r, a)` = conjugations applied to the
+    result / to the argument), the table that `Scico/Generated/AutogradTables.lean` (regenerated with `ast` from the
+    scico sources on every run) must equal: `grad`/`value_and_grad`/`jacrev` closures `(1,0)`; `cvjp.conj_vjp`,
+    `linear_adjoint.conj_fun`, `Operator.vjp` with `conjugate` `(1,1)`; without `conjugate`, `Operator.jvp` and the
+    `jacobian`/`Function` plumbing `(0,0)`; `linear_adjoint` transposes `conj_fun, conj_fun, fun` in its three branches and
+    `jacobian` always requests `conjugate=True`. -/
+theorem C07_conj_sites {K : Type} [CommRing K] (G : CVec K m → CVec K n) (f : CVec K n → CVec K m) (v : CVec K m)
+    (x jg : CVec K n) (T : (CVec K n → CVec K m) → (CVec K m → CVec K n)) :
+    (∀ nm ∈ ["grad.conjugated_grad_aux", "grad.conjugated_grad", "value_and_grad.conjugated_value_and_grad_aux",
+        "value_and_grad.conjugated_value_and_grad", "jacrev.conjugated_jacrev"], Tables.siteCounts nm = some (1, 0)) ∧
+      scicoGrad jg = conjTimes 1 jg ∧
+    (Tables.siteCounts "cvjp.conj_vjp" = some (1, 1) ∧ cvjpWrap G v = applySite 1 1 G v) ∧
+    (Tables.siteCounts "linear_adjoint.conj_fun" = some (1, 1) ∧ conjFun f x = applySite 1 1 f x) ∧
+    (Tables.siteCounts "Operator.vjp.Gmap#0" = some (1, 1) ∧ vjpWrap true G v = applySite 1 1 G v) ∧
+    (Tables.siteCounts "Operator.vjp.Gmap#1" = some (0, 0) ∧ vjpWrap false G v = applySite 0 0 G v) ∧
+    (∀ nm ∈ ["grad", "value_and_grad", "jacrev", "cvjp", "Operator.jvp", "Operator.vjp", "jacobian", "jacobian.adj_fn",
+        "jacobian.eval_fn#0", "jacobian.eval_fn#1", "Function.slice", "Function.slice.pfunc", "Function.jvp",
+        "Function.vjp", "Function.jacobian"], Tables.siteCounts nm = some (0, 0)) ∧
+    (Tables.linadjBranches.map Prod.snd = ["conj_fun", "conj_fun", "fun"] ∧
+      linearAdjoint T true true f = T (conjFun f) ∧ linearAdjoint T false true f = T (conjFun f) ∧
+      linearAdjoint T false false f = T f) ∧
+    (⟨"jacobian", "vjp", "conjugate", "True"⟩ : Tables.Forward) ∈ Tables.forwards := by
+  refine ⟨by decide, rfl, ⟨by decide, rfl⟩, ⟨by decide, rfl⟩, ⟨by decide, rfl⟩, ⟨by decide, vjpWrap_false_site G v⟩,
+    by decide, ⟨by decide, by simp [linearAdjoint], by simp [linearAdjoint], by simp [linearAdjoint]⟩, by decide⟩
+
 /-! ## argument slots of `Function` and `cvjp` -/
 
 /-- `Function.slice/jvp/vjp/jacobian(index, …)`: removing slot `index` (`fix_args`) and re-inserting
